@@ -1491,7 +1491,11 @@ func (fcomp *fcomp) plus(e *syntax.BinaryExpr) {
 	for i := 0; i < len(args); {
 		j := i + 1
 		if code := addable(args[i].x); code != 0 {
-			for j < len(args) && addable(args[j].x) == code {
+			// A later summand may join a run that does not start
+			// the chain only if its evaluation has no effects:
+			// in x + [f()] + [g()], g() must not be called
+			// before x + [f()] has been computed (and may fail).
+			for j < len(args) && addable(args[j].x) == code && (i == 0 || effectFree(args[j].x)) {
 				j++
 			}
 			if j > i+1 {
@@ -1560,6 +1564,28 @@ func addable(e syntax.Expr) rune {
 		return 't'
 	}
 	return 0
+}
+
+// effectFree reports whether e is a literal, or a list or tuple
+// display of literals, whose evaluation has no effects and cannot fail.
+func effectFree(e syntax.Expr) bool {
+	var elems []syntax.Expr
+	switch e := e.(type) {
+	case *syntax.Literal:
+		return true
+	case *syntax.ListExpr:
+		elems = e.List
+	case *syntax.TupleExpr:
+		elems = e.List
+	default:
+		return false
+	}
+	for _, elem := range elems {
+		if _, ok := elem.(*syntax.Literal); !ok {
+			return false
+		}
+	}
+	return true
 }
 
 // add returns an expression denoting the sum of args,
